@@ -170,7 +170,7 @@ func TestVerifReplayC01(t *testing.T) {
 				if b > 40 {
 					b = 40
 				}
-				val = strings.Repeat([]string{"a", "é", "中"}[rng.Intn(3)], int(b))
+				val = strings.Repeat([]string{"a", "é", "中", "😀", "a😀"}[rng.Intn(5)], int(b))
 			case "slice":
 				if b < 1 {
 					b = 1
